@@ -128,6 +128,27 @@ CLAIMED["C11"] = {
     "design_ref": "7 (C11)",
 }
 
+CLAIMED["C04"] = {
+    "technique": "Coq proofs over the catalog skeleton model: for every accepted expanded forest the key lists of the catalog are exactly the declaring directives in pre-order (servers, types, enums with a body, declared tags first then automatic tags in order of first use, interactions = the ids made by the method directives, each made by exactly one directive), each interaction's annotation, description, query, request presence, response codes in order, params/result are the fold of the content directives that resolve to it, info/jsight come from their directives (catalog_keys, every_method_makes_an_interaction, content_faithful, info_faithful); tied to the code by skeleton correspondence, and decided on the implementation by model-first generation: abstract API models are generated first, the expected catalog is computed from the MODEL (gendoc.expect.catalog_of) and compared with the skeleton of the implementation's JSON",
+    "text": "9 theorems for all forests on coq/model/Catalog.v; generated API models: every rendering must be accepted and its JSON skeleton must equal the expectation computed from the abstract model; the extracted Coq model is run on the same documents.",
+    "note": "Trusted: Coq kernel, extraction + OCaml driver, harness, the generator's expectation function (self-checked by round trips every run). Schema CONTENT (the children of a schema) is the schema library's; the skeleton carries notation, format, type references. Partial: provenance of request/response bodies and headers, INFO/TAG descriptions are not traced by a theorem (format by C09).",
+    "design_ref": "7 (C04)",
+}
+
+CLAIMED["C10"] = {
+    "technique": "Coq proofs: the name-collecting passes (enums, tags, duplicate types) give the same verdict and permuted results under any permutation of the forest (closed-form criterion), the catalog fold over declaration directives (SERVER/TYPE/TAG/ENUM) is order free up to the order of the entries, allOf inheritance renders every type identically under any permutation of the TYPE directives (heap model), the macro recursion check's verdict is a property of the paste graph; the refuted part (usedUserTypes lists) is a witness theorem and a recorded finding; the rest of the property (URL/method trees, path variables, whole pipeline) is decided by metamorphic runs: generated API models rendered in a random permutation of their top-level blocks, also after macro-ization, must give the same verdict, equal entries and the permuted order",
+    "text": "8 theorems (5 partial by name) on the catalog, allOf and macro models + metamorphic correspondence of the implementation with itself under permutation on generated documents every run.",
+    "note": "Trusted: Coq kernel, the document generator and its permutation/expectation functions (self-checked), harness. Partial: see the header of coq/props/C10.v. Known finding: usedUserTypes of allOf chains depend on the declaration order (fixtures pin one order).",
+    "design_ref": "7 (C10)",
+}
+
+CLAIMED["C20"] = {
+    "technique": "Coq proofs over the catalog skeleton model and the macro model: a fresh SERVER or TYPE appended to an accepted forest is accepted iff its name is new and yields the old catalog plus exactly that entry (both directions), a fresh root-level HTTP method appended yields the old catalog plus the interaction and its automatic tag, an unused macro is inert (C07 unused_macro_inert); insertion at arbitrary positions and removal are decided by metamorphic runs: generated API models with one fresh declaration of a random kind at a random insertion point, one removal of an unreferenced declaration, one unused macro - every other catalog entry must stay byte-identical",
+    "text": "7 theorems (2 partial by name) on coq/model/Catalog.v for the end position + metamorphic correspondence of the implementation with itself on generated documents every run.",
+    "note": "Trusted: Coq kernel, the document generator's add/remove transformations (self-checked), harness. Partial: arbitrary insertion positions and the TAG case (a new TAG captures the automatic tag of the same name, so it is not inert in general) are explored, not proved.",
+    "design_ref": "7 (C20)",
+}
+
 def main():
     checks = []
     for pid in ALL:
